@@ -152,6 +152,13 @@ HexahedralMeshTopologyKernel::add_cell(std::vector<HalfFaceHandle> _halffaces, b
         return TopologyKernel::InvalidCellHandle;
     }
 
+    for (const auto &hfh: ordered_halffaces) {
+        if (!hfh.is_valid()) {
+            // a side halfface is missing (e.g. one halfface was given twice)
+            return TopologyKernel::InvalidCellHandle;
+        }
+    }
+
     return TopologyKernel::add_cell(std::move(ordered_halffaces), _topologyCheck);
 }
 
